@@ -1423,7 +1423,7 @@ func gen(r *prng.R, f proto.Flags, emit func(proto.Case)) {
 
 	nA, nC, nD, nE, nF, nBsample := 500*mul, 2*mul, 2*mul, 350*mul, 40*mul, 350*mul
 	if thorough {
-		nA, nC, nD, nE, nF = 3000*mul, 6*mul, 4*mul, 2500*mul, 300*mul
+		nA, nC, nD, nE, nF = 800*mul, 4*mul, 3*mul, 700*mul, 100*mul
 	}
 	for i := 0; i < nA; i++ {
 		emit(randCase(r.Fork(), next("a"), b))
@@ -1458,9 +1458,9 @@ func gen(r *prng.R, f proto.Flags, emit func(proto.Case)) {
 	}
 	for m := 0; m < pow(5, 4); m++ {
 		if thorough {
-			for _, o := range p4 {
+			for j := 0; j < 2; j++ { // two of the 24 declaration orders per graph, rotating through all of them
 				k++
-				emit(refGraphCase(next("r4f-"), 4, functionalAdj(4, m), dirs[k%3%2], o))
+				emit(refGraphCase(next("r4f-"), 4, functionalAdj(4, m), dirs[k%3%2], p4[(m*2+j)%len(p4)]))
 			}
 		} else if m%mulStep(mul) == 0 {
 			k++
@@ -1474,7 +1474,7 @@ func gen(r *prng.R, f proto.Flags, emit func(proto.Case)) {
 				emit(refGraphCase(next("r3g-"), 3, generalAdj(3, m), dirs[k%2], o))
 			}
 		}
-		for i := 0; i < 3000*mul; i++ {
+		for i := 0; i < 800*mul; i++ {
 			rr := r.Fork()
 			emit(refGraphCase(next("r4g-"), 4, generalAdj(4, rr.Intn(1<<16)&rr.Intn(1<<16)), dirs[i%2], p4[rr.Intn(len(p4))]))
 		}
@@ -1484,7 +1484,7 @@ func gen(r *prng.R, f proto.Flags, emit func(proto.Case)) {
 	}
 	nG := 150 * mul
 	if thorough {
-		nG = 1500 * mul
+		nG = 500 * mul
 	}
 	for i := 0; i < nG; i++ {
 		emit(statusCase(r.Fork(), next("g")))
@@ -1496,7 +1496,7 @@ func gen(r *prng.R, f proto.Flags, emit func(proto.Case)) {
 	sort.Strings(shapeNames)
 	nDup := 8 * mul
 	if thorough {
-		nDup = 60 * mul
+		nDup = 25 * mul
 	}
 	for rep := 0; rep < nDup; rep++ {
 		for _, sh := range shapeNames {
@@ -1511,14 +1511,14 @@ func gen(r *prng.R, f proto.Flags, emit func(proto.Case)) {
 	}
 	nParam := 60 * mul
 	if thorough {
-		nParam = 600 * mul
+		nParam = 250 * mul
 	}
 	for i := 0; i < nParam; i++ {
 		emit(paramCase(r.Fork(), next("p")))
 	}
 	nStress := 2 * mul
 	if thorough {
-		nStress = 12 * mul
+		nStress = 5 * mul
 	}
 	for i := 0; i < nStress; i++ {
 		emit(stressCase(r.Fork(), next("s-metrics-"), "metrics"))
@@ -1526,7 +1526,7 @@ func gen(r *prng.R, f proto.Flags, emit func(proto.Case)) {
 	}
 	nDoc := mul
 	if thorough {
-		nDoc = 6 * mul
+		nDoc = 3 * mul
 	}
 	for rep := 0; rep < nDoc; rep++ {
 		for _, d := range []string{"flows", "quotas", "path_params", "gateway"} {
@@ -1545,10 +1545,13 @@ func gen(r *prng.R, f proto.Flags, emit func(proto.Case)) {
 			total := enumCount(sp.n, sp.self, len(sp.labels))
 			every := 1 + total/300 // spread the crash budget of this space evenly
 			for m := 0; m < total; m++ {
+				if (sp.n == 4 || sp.name == "n3two") && m%2 == 1 { // the two big spaces (20 480 / 16 384 graphs): every second one
+					continue
+				}
 				g := reorder(withLeaves(enumGraph(sp.n, sp.self, sp.labels, m), m), m%4)
 				mm := m
 				emit(respCase(next("b-"+sp.name+"-res-"), g, consts, bb, func() bool { return mm%every == 0 }))
-				if sp.n < 4 || mm%3 == 0 {
+				if (sp.n < 3 || sp.self || mm%2 == 0) && (sp.n < 4 || mm%4 == 0) { // request side: n3two every second, n4one every fourth
 					emit(reqCase(next("b-"+sp.name+"-req-"), reorder(withLeaves(enumGraph(sp.n, sp.self, sp.labels, m), m), (m/3+2)%4), consts))
 				}
 			}
@@ -1558,7 +1561,10 @@ func gen(r *prng.R, f proto.Flags, emit func(proto.Case)) {
 		for _, nk := range [][2]int{{3, 1}, {3, 2}, {3, 3}, {3, 4}, {3, 5}, {4, 2}, {4, 3}, {4, 4}} {
 			total := seqCount(nk[0], nk[1])
 			for m := 0; m < total; m++ {
-				if nk[0] == 4 && nk[1] == 4 && m%2 == 1 {
+				if nk[0] == 4 && nk[1] == 4 && m%8 != 0 { // 43 680 sequences: every eighth
+					continue
+				}
+				if nk[0] == 3 && nk[1] == 5 && m%3 != 0 { // 15 120 sequences: every third
 					continue
 				}
 				if m%2 == 0 {
